@@ -126,6 +126,25 @@ def opBoolSize (j : Json) : R Json := do
   return Json.arr (vs.map fun v => Json.arr #[Json.bool (getBool v.toList),
     match getSize v.toList with | some n => Json.num n | none => Json.null]).toArray
 
+open Netrc in
+/-- {"files":[[line...]...], "urls":[str...]} -> per url: applied credentials + renderings -/
+def opNetrc (j : Json) : R Json := do
+  let files ← (← fArr j "files").mapM fun f => do
+    let ls ← f.getArr?
+    ls.toList.mapM fun l => do return (← l.getStr?).toList
+  let urls ← (← fArr j "urls").mapM (·.getStr?)
+  let ms := loadFiles files
+  let encO := fun (o : Option Str.S) => match o with | some s => encS s | none => Json.null
+  return Json.mkObj [
+    ("machines", Json.arr (ms.map fun e => Json.arr #[encS e.1.protocol, encO e.1.hostname,
+        (match e.1.port with | some n => Json.num n | none => Json.null), encS e.1.path, encS e.2.1, encS e.2.2]).toArray),
+    ("urls", Json.arr (urls.map fun us =>
+      let u := urlOf us.toList
+      let a := applied ms u
+      Json.mkObj [("applied", Json.arr #[encO a.1, encO a.2]), ("str", encS u.withoutAuth), ("fs", encS u.fsPath),
+        ("for_path", encS (u.forPath "pool/x.deb".toList)),
+        ("match", match matchMachine ms u with | some (l, p) => Json.arr #[encS l, encS p] | none => Json.null)]).toArray)]
+
 def dispatch (j : Json) : R Json := do
   let op ← fStr j "op"
   match op with
@@ -136,6 +155,7 @@ def dispatch (j : Json) : R Json := do
   | "moveops" => opMoveOps j
   | "lexsafe" => opLexSafe j
   | "config" => opConfig j
+  | "netrc" => opNetrc j
   | "findkey" => opFindKey j
   | "boolsize" => opBoolSize j
   | "plainname" => opPlainName j
